@@ -322,7 +322,11 @@ func c06ProtocolReal(c RCCase, resp *drv.Response, rng *rand.Rand) {
 		}
 		k := rng.Intn(len(c.Widths))
 		w := c.Widths[k]
-		for _, bad := range []*big.Int{pow2(w), new(big.Int).Add(pow2(64), big.NewInt(5)), new(big.Int).Add(pow2(128), one), new(big.Int).Sub(bigR, one)} {
+		bads := []*big.Int{pow2(w), new(big.Int).Add(pow2(64), big.NewInt(5)), new(big.Int).Add(pow2(128), one), new(big.Int).Sub(bigR, one)}
+		if c.Pad > 0 {
+			bads = bads[1+rng.Intn(3):][:1] // a padded circuit takes seconds and gigabytes to compile: one seeded value beyond 64 bits
+		}
+		for _, bad := range bads {
 			if bad.Cmp(pow2(w)) < 0 {
 				continue
 			}
